@@ -43,6 +43,7 @@ type reader struct {
 	mu    sync.Mutex
 	start time.Time
 	Notes []note
+	slow  time.Duration // the application needs this long (virtual) to process a notification
 }
 
 func (r *reader) RemoteSKIConnected(string)    {}
@@ -57,6 +58,9 @@ func (r *reader) ServicePairingDetailUpdate(ski string, d *api.ConnectionStateDe
 	r.mu.Lock()
 	r.Notes = append(r.Notes, note{ski, st, time.Since(r.start)})
 	r.mu.Unlock()
+	if r.slow > 0 {
+		time.Sleep(r.slow) // state changes arrive while the application is inside the callback
+	}
 }
 func (r *reader) AllowWaitingForTrust(string) bool { return true }
 
@@ -70,8 +74,9 @@ type C18Step struct {
 }
 
 type C18Script struct {
-	Steps []C18Step `json:"steps"`
-	Procs int       `json:"procs"`
+	Steps  []C18Step `json:"steps"`
+	Procs  int       `json:"procs"`
+	SlowMs int       `json:"slowMs"`
 }
 
 type c18Result struct {
@@ -85,7 +90,7 @@ func skiOf(i int) string { return fmt.Sprintf("%040d", i+1) }
 
 func runC18(sc C18Script) *c18Result {
 	res := &c18Result{Hub: map[int][]int{}, Delivered: map[int][]int{}, Final: map[int]int{}}
-	rd := &reader{start: time.Now()}
+	rd := &reader{start: time.Now(), slow: time.Duration(sc.SlowMs) * time.Millisecond}
 	mgr := mdns.NewMDNS("ffffffffffffffffffffffffffffffffffffffff", "b", "m", "t", "s", nil, "id", "svc", 4711, nil, mdns.MdnsProviderSelectionAll)
 	h := hub.NewHub(rd, &mdnsWrap{mgr, &mdnssim.FakeProvider{}}, -1, tls.Certificate{}, api.NewServiceDetails("ffffffffffffffffffffffffffffffffffffffff"))
 	h.Start() // the listener fails at once (port -1): no socket, the bubble stays closed
@@ -114,7 +119,7 @@ func runC18(sc C18Script) *c18Result {
 			time.Sleep(time.Duration(s.Gap))
 		}
 	}
-	time.Sleep(2 * time.Second)
+	time.Sleep(2*time.Second + 40*time.Duration(sc.SlowMs)*time.Millisecond)
 	synctest.Wait()
 	rd.mu.Lock()
 	for _, n := range rd.Notes {
@@ -209,7 +214,7 @@ var templates = [][]uint{
 var gaps = []int64{0, 0, 1000, int64(time.Millisecond), int64(100 * time.Millisecond), int64(600 * time.Millisecond)}
 
 func genC18(t *rapid.T) (C18Script, bool) {
-	sc := C18Script{Procs: rapid.SampledFrom([]int{1, 2, 16}).Draw(t, "procs")}
+	sc := C18Script{Procs: rapid.SampledFrom([]int{1, 2, 16}).Draw(t, "procs"), SlowMs: rapid.SampledFrom([]int{0, 0, 1, 300, 700}).Draw(t, "slowMs")}
 	nSki := rapid.IntRange(1, 4).Draw(t, "nSki")
 	type run struct {
 		ski   int
@@ -271,7 +276,7 @@ func TestC18(t *testing.T) {
 			st.AddInconclusive()
 			return
 		}
-		st.Case(sc, quick && len(sc.Steps) >= 3, fmt.Sprintf("gomaxprocs:%d", sc.Procs))
+		st.Case(sc, quick && len(sc.Steps) >= 3, fmt.Sprintf("gomaxprocs:%d", sc.Procs), fmt.Sprintf("slow-application-ms:%d", sc.SlowMs))
 		if key != "" {
 			st.Fail(key, msg, sc)
 			rt.Fatalf("%s: %s", key, msg)
